@@ -13,7 +13,9 @@ use crate::xspec::{self, Disp};
 
 /// -u- body: tokens of the given lengths through the real UnicodeExtensionList::try_from_iter
 pub fn uframe<const K: usize>(lens: [usize; K]) {
-    let toks = h::toks_len(lens);
+    uframe_toks(h::toks_len(lens))
+}
+pub fn uframe_toks<const K: usize>(toks: [Tok; K]) {
     h::note_toks(&toks);
     let inf = spec::infos(&toks);
     let (want, end, over) = xspec::parse_u(&inf, 0);
@@ -26,7 +28,7 @@ pub fn uframe<const K: usize>(lens: [usize; K]) {
     cover!(got.is_ok());
     match (&got, &want) {
         (Ok(u), Ok(m)) => {
-            assert!(h::ulist_is(u, m), "-u- body: attributes, keyword keys and types equal the reference (normalised)");
+            assert!(h::ulist_is_lite(u, m), "-u- body: attributes, keyword keys and types equal the reference (normalised)");
             assert!(left == K - end, "-u- body ends exactly at the first subtag that cannot continue it");
         }
         (Err(_), Err(_)) => {}
@@ -59,7 +61,9 @@ fn count_tkeys<const K: usize>(inf: &[spec::Info; K]) -> usize {
 }
 
 pub fn tframe<const K: usize>(lens: [usize; K]) {
-    let toks = h::toks_len(lens);
+    tframe_toks(h::toks_len(lens))
+}
+pub fn tframe_toks<const K: usize>(toks: [Tok; K]) {
     h::note_toks(&toks);
     let inf = spec::infos(&toks);
     let (want, end, over) = xspec::parse_t(&inf, 0);
@@ -71,7 +75,7 @@ pub fn tframe<const K: usize>(lens: [usize; K]) {
     cover!(got.is_ok());
     match (&got, &want) {
         (Ok(t), Ok(m)) => {
-            assert!(h::tlist_is(t, m), "-t- body: tlang, tfield keys and values equal the reference (normalised)");
+            assert!(h::tlist_is_lite(t, m), "-t- body: tlang, tfield keys and values equal the reference (normalised)");
             assert!(left == K - end, "-t- body ends exactly at the first subtag that cannot continue it");
         }
         (Err(_), Err(_)) => {}
@@ -79,6 +83,14 @@ pub fn tframe<const K: usize>(lens: [usize; K]) {
         (Err(_), Ok(_)) => assert!(false, "-t- body rejected a well-formed prefix instead of stopping"),
     }
     core::mem::forget(got);
+}
+
+/// -t- / -u- body on a frame with some concrete positions
+pub fn tframe_pos<const K: usize>(spec_: [Pos; K]) {
+    tframe_toks(frame_toks(spec_))
+}
+pub fn uframe_pos<const K: usize>(spec_: [Pos; K]) {
+    uframe_toks(frame_toks(spec_))
 }
 
 pub fn xframe<const K: usize>() {
@@ -133,6 +145,25 @@ pub mod t {
         c03_t_2_3_2_3 = [2, 3, 2, 3];
     }
 }
+pub mod tk {
+    use super::Pos::{Len, Lit};
+    use super::*;
+    proofs! {
+        // concrete tkey, symbolic rest: value classification, where the body must stop, second tlang
+        [push, sortt, sortv, boxed] fn c03_tk_h0_3() { tframe_pos([Lit(b"h0"), Len(3)]) }
+        [push, sortt, sortv, boxed] fn c03_tk_h0_3_1() { tframe_pos([Lit(b"h0"), Len(3), Len(1)]) }
+        [push, sortt, sortv, boxed] fn c03_tk_h0_3_9() { tframe_pos([Lit(b"h0"), Len(3), Len(9)]) }
+        [push, sortt, sortv, boxed] fn c03_tk_h0_4_5() { tframe_pos([Lit(b"H0"), Len(4), Len(5)]) }
+        [push, sortt, sortv, boxed] fn c03_tk_h0_3_k0_4() { tframe_pos([Lit(b"k0"), Len(3), Lit(b"h0"), Len(4)]) }
+        [push, sortt, sortv, boxed] fn c03_tk_en_5_2() { tframe_pos([Lit(b"en"), Len(5), Len(2)]) }
+        [push, sortt, sortv, boxed] fn c03_tk_en_h0_3() { tframe_pos([Lit(b"en"), Lit(b"h0"), Len(3)]) }
+        // concrete ukey
+        [push, sortt] fn c03_uk_ca_3() { uframe_pos([Lit(b"ca"), Len(3)]) }
+        [push, sortt] fn c03_uk_ca_4_1() { uframe_pos([Lit(b"CA"), Len(4), Len(1)]) }
+        [push, sortt] fn c03_uk_3_ca_4() { uframe_pos([Len(3), Lit(b"ca"), Len(4)]) }
+        [push, sortt] fn c03_uk_nu_3_ca_4() { uframe_pos([Lit(b"nu"), Len(3), Lit(b"ca"), Len(4)]) }
+    }
+}
 pub mod x {
     use super::*;
     proofs! {
@@ -176,4 +207,72 @@ proofs! {
     core::mem::forget(got);
 }
 
+}
+
+// ---- composition frames through the whole extension map ----------------------------------
+
+/// one position of a composition frame
+#[derive(Clone, Copy)]
+pub enum Pos {
+    /// a singleton letter in symbolic case
+    Sing(u8),
+    /// exactly n arbitrary bytes
+    Len(usize),
+    /// a concrete subtag (keeps map keys concrete: the B-tree code then runs on constants)
+    Lit(&'static [u8]),
+}
+pub fn frame_toks<const K: usize>(spec_: [Pos; K]) -> [Tok; K] {
+    let mut a = [Tok::lit(b""); K];
+    let mut i = 0;
+    while i < K {
+        a[i] = match spec_[i] {
+            Pos::Sing(c) => {
+                let up = k::bool();
+                Tok::lit(&[if up { spec::upper(c) } else { c }])
+            }
+            Pos::Len(n) => sym::tok_len(n),
+            Pos::Lit(l) => Tok::lit(l),
+        };
+        i += 1;
+    }
+    a
+}
+
+/// the whole extension map on a frame, against the three-zone oracle `xspec::parse_map`
+pub fn mapframe<const K: usize>(spec_: [Pos; K]) {
+    let toks = frame_toks(spec_);
+    h::note_toks(&toks);
+    let inf = spec::infos(&toks);
+    let want = xspec::parse_map(&inf, &toks);
+    k::assume(!want.over);
+    let got = h::parse_extmap_tokens(&toks);
+    cover!(got.is_ok());
+    cover!(got.is_err());
+    match want.zone {
+        xspec::Zone::MustAccept => match &got {
+            Ok(m) => {
+                assert!(h::ulist_is_lite(&m.unicode, &want.u), "-u- content equals the reference");
+                assert!(h::tlist_is_lite(&m.transform, &want.t), "-t- content equals the reference");
+                assert!(h::plist_is(&m.private, &want.p), "-x- content equals the reference");
+                assert!(m.other.is_empty());
+            }
+            Err(_) => assert!(false, "a well-formed extension sequence is rejected"),
+        },
+        xspec::Zone::MustReject => assert!(got.is_err(), "ill-formed extension sequence (malformed / misplaced subtag, repeated singleton, second tlang) must be rejected, not partially dropped"),
+        xspec::Zone::Either => {}
+    }
+    core::mem::forget(got);
+}
+
+pub mod map {
+    use super::Pos::{Len, Sing};
+    use super::*;
+    proofs! {
+        [push, sortt, sortv, boxed] fn c03_map_u3_u3() { mapframe([Sing(b'u'), Len(3), Sing(b'u'), Len(3)]) }
+        [push, sortt, sortv, boxed] fn c03_map_u3_x3() { mapframe([Sing(b'u'), Len(3), Sing(b'x'), Len(3)]) }
+        [push, sortt, sortv, boxed] fn c03_map_t2_3_u3() { mapframe([Sing(b't'), Len(2), Len(3), Sing(b'u'), Len(3)]) }
+        [push, sortt, sortv, boxed] fn c03_map_u3_t2() { mapframe([Sing(b'u'), Len(3), Sing(b't'), Len(2)]) }
+        [push, sortt, sortv, boxed] fn c03_map_t2_t2() { mapframe([Sing(b't'), Len(2), Sing(b't'), Len(2)]) }
+        [push, sortt, sortv, boxed] fn c03_map_u2_3_t2_3_x3() { mapframe([Sing(b'u'), Len(2), Len(3), Sing(b't'), Len(2), Len(3), Sing(b'x'), Len(3)]) }
+    }
 }
